@@ -110,6 +110,14 @@ def check_no_fault_history(events, cache_dir, tol=1e-11, expect_builders=1):
     """Invariants of C14 over one merged, time-sorted history without injected faults.  Returns list of (mechanism, text)."""
     V = []
     modules = {e["module"] for e in events if e["ev"] == "lock_result"}
+    if len(modules) > 1:
+        # every process of a history issues the same request: one module name, hence one lock file and one compile
+        by = {}
+        for e in events:
+            if e["ev"] == "lock_result":
+                by.setdefault(e["module"], []).append(e["pid"])
+        V.append(("same-request-different-module-names", f"the same request was given {len(modules)} different module names in different processes "
+                  f"({ {m[-12:]: p for m, p in by.items()} }): {sum(1 for e in events if e['ev'] == 'proto' and e['key'] == 'popen_cc')} compiler launches in total"))
     for mod in modules:
         builders = [e for e in events if e["ev"] == "lock_result" and e["module"] == mod and e["outcome"] == "builder"]
         if len(builders) != expect_builders:
